@@ -284,7 +284,7 @@ func knapsackCase(wide bool) func(c *ev.Case) {
 		for bk := 0; bk < len(breakerNames); bk++ {
 			var st brStat
 			br := mkBreaker(bk, salt, &st)
-			in := append([]item(nil), items...) // golib gets a private copy
+			in, inputIntact := input(c, "ks", items) // golib gets a private copy
 			ctx := func() string {
 				return fmt.Sprintf("Knapsack(limit=%d, items=%s, tieBreaker=%s), optimum value %d", limit, fmtItems(items), breakerNames[bk], opt)
 			}
@@ -303,6 +303,9 @@ func knapsackCase(wide bool) func(c *ev.Case) {
 			}
 			if c.Logging() {
 				c.Logf("  -> %s   [breaker calls %d, replaced %d]", fmtItems(clip(got)), st.calls, st.replaced)
+			}
+			if !inputIntact(ctx) {
+				return
 			}
 			c.Add("ks_calls", 1)
 			c.Add("ks_breaker_calls", st.calls)
